@@ -74,19 +74,23 @@ def main() -> int:  # noqa: C901, PLR0912, PLR0915
     procs = []
     for s in range(jobs):
         out = os.path.join(tmp, f"shard{s}.json")
+        errf = open(os.path.join(tmp, f"shard{s}.err"), "w+")
         p = subprocess.Popen(
             [PY, "-m", "hv.worker", prop, tier, str(s), str(jobs), out],
             env=env,
             cwd=ROOT,
-            stdout=subprocess.PIPE,
-            stderr=subprocess.PIPE,
+            stdout=subprocess.DEVNULL,
+            stderr=errf,
             text=True,
         )
-        procs.append((p, out))
+        procs.append((p, out, errf))
     shards = []
     harness_errors = []
-    for p, out in procs:
-        so, se = p.communicate()
+    for p, out, errf in procs:
+        p.wait()
+        errf.seek(0)
+        se = errf.read()
+        errf.close()
         if os.path.exists(out):
             with open(out) as fh:
                 d = json.load(fh)
@@ -141,6 +145,9 @@ def main() -> int:  # noqa: C901, PLR0912, PLR0915
     unlisted = 0
     listed = 0
     replay_dir = os.path.join(ROOT, "replays", prop)
+    if os.path.isdir(replay_dir):
+        for f in os.listdir(replay_dir):  # replays of earlier runs are stale
+            os.unlink(os.path.join(replay_dir, f))
     for sig in sorted(best):
         w = best[sig]
         if sig in known:
